@@ -120,7 +120,7 @@ PROPS.update({
                level_note=TRUST_COMMON + ' tungstenite Message / WebSocket are shims.'),
     'C17': _ev(['alias', 'protocol'], 'Unbounded proofs for the inbound resolver (empty topic -> bound topic or error; 0 / out-of-range -> error; reset empties), the manual and null outbound resolvers '
                '(skip-topic only for an alias currently bound to exactly that topic; alias in 1..=max; table updated exactly when an alias is sent with its topic), and that the engine resets both at CONNACK. '
-               'LRU resolver is bounded (E-B).', design_ref='DESIGN.md 3/C17',
+               'The LRU resolver is proved too (alias range, omission only for bound topics, table evolves as the server\'s) under assumed specifications of lru::LruCache; the engine-level coupling through the RefCell and the wire is bounded (E-B).', design_ref='DESIGN.md 3/C17',
                level_note=TRUST_COMMON + ' "Table stays in step with the wire" across last-chance validation failures is not decidable by a contract (RefCell behind &self).'),
 })
 
